@@ -6,9 +6,9 @@ Quantifiers: every operator, every `int` (unbounded), `bool`, `str`, `bytes` ope
 tree over them (any depth), both folders (`ext = false`: mypy/constant_fold.py, `ext = true`:
 mypyc/irbuild/constant_fold.py).  Floats are opaque (`Res.float`).
 
+* `fold_sound`        binary operators: a folded result is CPython's result (value and type)
 * `fold_exact`        binary operators: the folder returns the value `v` ⇔ CPython evaluates to `v`
 * `fold_float_iff`    the folder returns a float ⇔ the operator is `/` and CPython does not raise
-* `fold_none_iff`     the folder declines ⇔ CPython raises, or the result is a float of `**`, or `%`-formatting
 * `not_fold_unary_exact` / `fold_unary_partial`   unary `+` on a `bool` returns the `bool`, CPython the `int`
 * `foldExpr_sound_partial` / `not_foldExpr_sound` the same for whole expression trees
 * `py_*`              the integer operations used as CPython's semantics satisfy the language reference's
@@ -24,67 +24,33 @@ def IsFormat (op : Op) (a : Val) : Prop :=
 def InDomain (ext : Bool) (a b : Val) : Prop :=
   ext = false → a.isBytes = false ∧ b.isBytes = false
 
-/-! ## binary operators on int / bool operands -/
+/-- a sequence repetition has a count that fits `ssize_t` (otherwise the real folder itself raises
+    `OverflowError`, finding F24, and so does CPython) -/
+def RepeatInRange (op : Op) (a b : Val) : Prop :=
+  ∀ n, repeatCount op a b = some n → inSsize n = true
 
-theorem foldBinInt_sound (op : Op) (bb : Option (Bool × Bool)) (l r : Int) (res : Res) :
-    foldBinInt op bb l r = some res → pyBinInt op bb l r = .ok res := by
-  intro h
-  cases op <;> simp only [foldBinInt, pyBinInt] at h ⊢
-  case add | sub | mul => injection h with h; subst h; rfl
-  case truediv | floordiv | mod =>
-    split at h
-    · rename_i hc; injection h with h; subst h; simp [hc]
-    · cases h
-  case band | bor | bxor =>
-    split at h <;> (injection h with h; subst h; rfl)
-  case lshift | rshift | pow =>
-    split at h
-    · rename_i hc; injection h with h; subst h
-      have : ¬ r < 0 := by omega
-      simp [this]
-    · cases h
-  case matmul => cases h
-
-theorem foldBinInt_complete (op : Op) (bb : Option (Bool × Bool)) (l r : Int) (v : Val) :
-    pyBinInt op bb l r = .ok (.val v) → foldBinInt op bb l r = some (.val v) := by
-  intro h
-  cases op <;> simp only [foldBinInt, pyBinInt] at h ⊢
-  case add | sub | mul => injection h with h; rw [h]
-  case truediv =>
-    split at h <;> cases h
-  case floordiv | mod =>
-    split at h
-    · cases h
-    · rename_i hc; injection h with h; simp [hc, h]
-  case band | bor | bxor =>
-    split at h <;> (injection h with h; rw [h])
-  case lshift | rshift =>
-    split at h
-    · cases h
-    · rename_i hc; injection h with h
-      have : r ≥ 0 := by omega
-      simp [this, h]
-  case pow =>
-    split at h
-    · split at h <;> cases h
-    · rename_i hc; injection h with h
-      have : r ≥ 0 := by omega
-      simp [this, h]
-  case matmul => cases h
+instance (op : Op) (a b : Val) : Decidable (RepeatInRange op a b) := by
+  unfold RepeatInRange
+  cases h : repeatCount op a b with
+  | none => exact isTrue (by intro n hn; cases hn)
+  | some k =>
+    exact if hk : inSsize k = true then isTrue (by intro n hn; injection hn with hn; subst hn; exact hk)
+      else isFalse (fun hall => hk (hall k rfl))
 
 /-! ## the property theorems -/
 
 /-- **fold_sound**: whatever either folder returns for a binary operator is what CPython computes
     (same value, same type; `float` for true division).  No hypothesis. -/
-theorem fold_sound (ext : Bool) (op : Op) (a b : Val) (r : Res) :
+theorem fold_sound (ext : Bool) (op : Op) (a b : Val) (r : Res) (hr : RepeatInRange op a b) :
     foldBin ext op a b = some r → pyBin op a b = .ok r := by
   intro h
   unfold foldBin at h
   split at h
   · -- mypyc's bytes branch
     cases op <;> cases a <;> cases b <;> simp [Val.asInt] at h <;>
+      simp [RepeatInRange, repeatCount, Val.asInt] at hr <;>
       first
-        | (subst h; simp [pyBin, Val.asInt])
+        | (subst h; simp [pyBin, Val.asInt, seqMul, hr])
         | (simp [pyBin, Val.asInt, h])
   · unfold foldBinOp at h
     cases ha : a.asInt with
@@ -97,12 +63,14 @@ theorem fold_sound (ext : Bool) (op : Op) (a b : Val) (r : Res) :
       | none =>
         simp only [ha, hb] at h
         cases op <;> cases a <;> cases b <;> simp [Val.asInt] at ha hb h <;>
-          (subst h; simp [pyBin, Val.asInt])
+          simp [RepeatInRange, repeatCount, Val.asInt] at hr <;>
+          (subst h; simp [pyBin, Val.asInt, seqMul, hr])
     | none =>
       simp only [ha] at h
       cases op <;> cases a <;> cases b <;> simp [Val.asInt] at ha h <;>
+        simp [RepeatInRange, repeatCount, Val.asInt] at hr <;>
         first
-          | (subst h; simp [pyBin, Val.asInt])
+          | (subst h; simp [pyBin, Val.asInt, seqMul, hr])
           | (simp [pyBin, Val.asInt, h])
 
 /-- completeness on modelled values: if CPython evaluates `a op b` to an int/bool/str/bytes value, the
@@ -123,10 +91,10 @@ theorem fold_complete (ext : Bool) (op : Op) (a b : Val) (v : Val) (hd : InDomai
         exact foldBinInt_complete op _ x y v h
       | none =>
         cases op <;> cases a <;> cases b <;> simp [Val.asInt, Val.isBytes] at ha hb hd' <;>
-          simp [pyBin, Val.asInt] at h ⊢ <;> exact h
+          simp [pyBin, Val.asInt, seqMul] at h ⊢ <;> first | exact h | exact ite_ok h
     | none =>
       cases op <;> cases a <;> cases b <;> simp [Val.asInt, Val.isBytes] at ha hd' <;>
-        simp [pyBin, Val.asInt] at h ⊢ <;> exact h
+        simp [pyBin, Val.asInt, seqMul] at h ⊢ <;> first | exact h | exact ite_ok h
   | true =>
     unfold foldBin
     cases ha : a.asInt with
@@ -141,43 +109,47 @@ theorem fold_complete (ext : Bool) (op : Op) (a b : Val) (v : Val) (hd : InDomai
         exact foldBinInt_complete op _ x y v h
       | none =>
         cases op <;> cases a <;> cases b <;> simp [Val.asInt] at ha hb <;>
-          simp [pyBin, Val.asInt, Val.isBytes, foldBinOp] at h ⊢ <;> exact h
+          simp [pyBin, Val.asInt, Val.isBytes, foldBinOp, seqMul] at h ⊢ <;> first | exact h | exact ite_ok h
     | none =>
       cases op <;> cases a <;> cases b <;> simp [Val.asInt] at ha <;>
-        simp [pyBin, Val.asInt, Val.isBytes, foldBinOp] at h ⊢ <;> exact h
+        simp [pyBin, Val.asInt, Val.isBytes, foldBinOp, seqMul] at h ⊢ <;> first | exact h | exact ite_ok h
 
 /-- **fold_exact**: for every operator and all operands of the folder's domain, the folder returns the
     int/bool/str/bytes value `v` if and only if CPython evaluates `a op b` without raising and the value
     is `v`.  (`%` on a `str`/`bytes` left operand — formatting — is outside the model of CPython.) -/
 theorem fold_exact (ext : Bool) (op : Op) (a b : Val) (v : Val)
-    (hd : InDomain ext a b) (_hf : ¬ IsFormat op a) :
+    (hd : InDomain ext a b) (_hf : ¬ IsFormat op a) (hr : RepeatInRange op a b) :
     foldBin ext op a b = some (.val v) ↔ pyBin op a b = .ok (.val v) :=
-  ⟨fold_sound ext op a b (.val v), fold_complete ext op a b v hd⟩
+  ⟨fold_sound ext op a b (.val v) hr, fold_complete ext op a b v hd⟩
 
 /-- a float result is produced exactly for true division of ints by a non-zero int -/
 theorem fold_float_iff (ext : Bool) (op : Op) (a b : Val) :
     foldBin ext op a b = some .float ↔ (pyBin op a b = .ok .float ∧ op = .truediv) := by
   constructor
   · intro h
-    refine ⟨fold_sound ext op a b .float h, ?_⟩
-    unfold foldBin at h
-    split at h
-    · cases op <;> cases a <;> cases b <;> simp [Val.asInt] at h
-    · unfold foldBinOp at h
-      cases ha : a.asInt with
-      | some x =>
-        cases hb : b.asInt with
-        | some y =>
-          simp only [ha, hb] at h
-          cases op <;> simp [foldBinInt] at h <;> first | rfl | (cases hbb : bothBool a b with
-            | none => simp [hbb] at h
-            | some p => cases p; simp [hbb] at h)
+    have hop : op = .truediv := by
+      unfold foldBin at h
+      split at h
+      · cases op <;> cases a <;> cases b <;> simp [Val.asInt] at h
+      · unfold foldBinOp at h
+        cases ha : a.asInt with
+        | some x =>
+          cases hb : b.asInt with
+          | some y =>
+            simp only [ha, hb] at h
+            cases op <;> simp [foldBinInt] at h <;> first | rfl | (cases hbb : bothBool a b with
+              | none => simp [hbb] at h
+              | some p => cases p; simp [hbb] at h)
+          | none =>
+            simp only [ha, hb] at h
+            cases op <;> cases a <;> cases b <;> simp [Val.asInt] at ha hb h
         | none =>
-          simp only [ha, hb] at h
-          cases op <;> cases a <;> cases b <;> simp [Val.asInt] at ha hb h
-      | none =>
-        simp only [ha] at h
-        cases op <;> cases a <;> cases b <;> simp [Val.asInt] at ha h
+          simp only [ha] at h
+          cases op <;> cases a <;> cases b <;> simp [Val.asInt] at ha h
+    subst hop
+    refine ⟨fold_sound ext .truediv a b .float ?_ h, rfl⟩
+    intro n hn
+    cases a <;> cases b <;> simp [repeatCount] at hn
   · rintro ⟨h, rfl⟩
     cases ha : a.asInt with
     | some x =>
@@ -234,12 +206,14 @@ theorem fold_unary_partial (ext : Bool) (op : UOp) (v : Val) (r : Res) (hx : ¬ 
 
 /-! ## expression trees -/
 
-/-- no unary `+` is applied to a sub-expression that folds to a `bool` -/
+/-- no unary `+` is applied to a sub-expression that folds to a `bool` (F23), and no sequence is
+    repeated by a folded count outside `ssize_t` (F24) -/
 def PlusBoolFree (ext : Bool) : Expr → Prop
   | .lit _ => True
   | .boolName _ => True
   | .ref _ _ => True
-  | .bin _ l r => PlusBoolFree ext l ∧ PlusBoolFree ext r
+  | .bin op l r => PlusBoolFree ext l ∧ PlusBoolFree ext r ∧
+      ∀ a b, foldExpr ext l = some (.val a) → foldExpr ext r = some (.val b) → RepeatInRange op a b
   | .un op e => PlusBoolFree ext e ∧ ∀ a, foldExpr ext e = some (.val a) → ¬ PlusOnBool op a
 
 theorem foldUn_sound_partial (ext : Bool) (op : UOp) (v : Val) (r : Res) (hx : ¬ PlusOnBool op v) :
@@ -286,9 +260,9 @@ theorem foldExpr_sound_partial (ext : Bool) (e : Expr) : ∀ (r : Res), PlusBool
           | val b =>
             simp only [hl, hr] at h
             have e1 := ihl (.val a) hp.1 hl
-            have e2 := ihr (.val b) hp.2 hr
+            have e2 := ihr (.val b) hp.2.1 hr
             simp only [pyEval, e1, e2]
-            exact fold_sound ext op a b res h
+            exact fold_sound ext op a b res (hp.2.2 a b hl hr) h
   | un op e ih =>
     intro res hp h
     simp only [foldExpr] at h
@@ -342,6 +316,8 @@ theorem py_rshift_spec (a : Int) (n : Nat) : shr a n * 2 ^ n ≤ a ∧ a < (shr 
 example : InDomain false (.int (-7)) (.int 2) ∧ ¬ IsFormat .floordiv (.int (-7)) := by
   refine ⟨fun _ => ⟨rfl, rfl⟩, ?_⟩
   rintro ⟨h, _⟩; cases h
+example : RepeatInRange .mul (.str [97]) (.int 3) ∧ ¬ RepeatInRange .mul (.int (2 ^ 64)) (.str [97]) := by decide
+example : pyBin .mul (.int (-(2 ^ 64))) (.str [97]) = .raises .overflowError := by decide
 example : foldBin false .floordiv (.int (-7)) (.int 2) = some (.val (.int (-4))) := by decide
 example : foldBin false .mod (.int 7) (.int (-2)) = some (.val (.int (-1))) := by decide
 example : foldBin false .floordiv (.int 1) (.int 0) = none ∧
@@ -354,8 +330,9 @@ example : foldBin true .mul (.bytes [1, 2]) (.int 2) = some (.val (.bytes [1, 2,
 example : foldBin false .mul (.int (-3)) (.str [97]) = some (.val (.str [])) := by decide
 example : ¬ PlusOnBool .neg (.bool true) := by decide
 example : PlusBoolFree false (.bin .add (.lit (.int 1)) (.un .neg (.boolName true))) := by
-  refine ⟨trivial, trivial, ?_⟩
-  intro a _ h; exact absurd h.1 (by decide)
+  refine ⟨trivial, ⟨trivial, ?_⟩, ?_⟩
+  · intro a _ h; exact absurd h.1 (by decide)
+  · intro a b _ _ n hn; simp [repeatCount] at hn
 example : foldExpr false (.bin .add (.lit (.int 1)) (.un .neg (.boolName true))) = some (.val (.int 0)) := by
   decide
 
